@@ -1,9 +1,12 @@
 package checks
 
 import (
+	"context"
 	"errors"
 	"fmt"
 	"strings"
+	"sync"
+	"time"
 
 	"github.com/transparency-dev/witness/internal/persistence"
 	"github.com/transparency-dev/witness/verifmc/choice"
@@ -19,6 +22,11 @@ import (
 func init() { Registry["C07"] = c07 }
 
 var errInjected = errors.New("verif: injected storage fault")
+
+var (
+	blockedMu     sync.Mutex
+	blockedStores = map[string]bool{}
+)
 
 // faultOp is one step of a fault history: an Update or a read.
 type faultOp struct {
@@ -80,9 +88,39 @@ func faultErr(kind string) error {
 	return errInjected
 }
 
+// timed runs f and reports whether it completed within a generous deadline
+// (operations take microseconds; 30 s without completion means the call is
+// blocked, e.g. waiting for the pool's only connection that some earlier
+// outcome never released in a way the driver wrapper cannot see).
+func timed(f func()) bool {
+	done := make(chan struct{})
+	go func() { f(); close(done) }()
+	select {
+	case <-done:
+		return true
+	case <-time.After(30 * time.Second):
+		return false
+	}
+}
+
 // faultExec runs one history under one chooser and applies the oracle.
 // c03only restricts the oracle to the C03 statement.
 func faultExec(run *ev.Run, prop string, u *uni.U, gen *wh.CPGen, logs []wh.LogCfg, store string, mode faultMode, h faultHistory, c *choice.C, c03only bool) {
+	// Once an operation was found blocked on this store, every further
+	// execution would spend the same 30 s finding it again: the violation is
+	// reported, the rest of this store's enumeration is cut short.
+	blockedMu.Lock()
+	cut := blockedStores[store]
+	blockedMu.Unlock()
+	if cut {
+		run.Add("executions_skipped_after_a_blocked_store_was_reported", 1)
+		return
+	}
+	markBlocked := func() {
+		blockedMu.Lock()
+		blockedStores[store] = true
+		blockedMu.Unlock()
+	}
 	active := false
 	afterEffect := false // an "after effect" answer was given in the current op
 	var lw *lspwrap.P
@@ -170,6 +208,23 @@ func faultExec(run *ev.Run, prop string, u *uni.U, gen *wh.CPGen, logs []wh.LogC
 			tx, rows = e.Drv.OpenTx(), e.Drv.OpenRows()
 		}
 		if open == 0 && tx == 0 && rows == 0 {
+			// Driver state is clean; on the single-connection pool also make
+			// sure the connection really went back (a pinned *sql.Conn that
+			// was never closed holds it without any open Tx or Rows).
+			if e.DB != nil {
+				if !timed(func() {
+					if cn, err := e.DB.Conn(context.Background()); err == nil {
+						_ = cn.Close()
+					}
+				}) {
+					markBlocked()
+					if !c03only {
+						run.Report(fmt.Sprintf("wedge store=%s connection-not-returned", storeKind(store)),
+							fmt.Sprintf("history %s, faults %v: after %s the pool's only connection was not returned within 30 s: every later operation blocks", h.Name, c.Trace(), after), replay(nil))
+					}
+					return true
+				}
+			}
 			return false
 		}
 		if !c03only {
@@ -189,10 +244,19 @@ func faultExec(run *ev.Run, prop string, u *uni.U, gen *wh.CPGen, logs []wh.LogC
 			var got []byte
 			var err error
 			var logsGot []string
-			if op.Logs {
-				logsGot, err = e.W.GetLogs()
-			} else {
-				got, err = e.W.GetCheckpoint(op.Req.LogID)
+			if !timed(func() {
+				if op.Logs {
+					logsGot, err = e.W.GetLogs()
+				} else {
+					got, err = e.W.GetCheckpoint(op.Req.LogID)
+				}
+			}) {
+				active = false
+				markBlocked()
+				if !c03only {
+					run.Report(fmt.Sprintf("blocked store=%s op=read", storeKind(store)), fmt.Sprintf("history %s, faults %v: %s did not complete within 30 s (the store is wedged by an earlier outcome)", h.Name, c.Trace(), op.Label), replay(nil))
+				}
+				return
 			}
 			active = false
 			if wedged(op.Label) {
@@ -231,7 +295,15 @@ func faultExec(run *ev.Run, prop string, u *uni.U, gen *wh.CPGen, logs []wh.LogC
 		}
 		exp := wh.Model(lc, stPre, r)
 		active = true
-		out := e.Do(r)
+		var out wh.Outcome
+		if !timed(func() { out = e.Do(r) }) {
+			active = false
+			markBlocked()
+			if !c03only {
+				run.Report(fmt.Sprintf("blocked store=%s op=update", storeKind(store)), fmt.Sprintf("history %s, faults %v: Update %q did not complete within 30 s (the store is wedged by an earlier outcome)", h.Name, c.Trace(), r.Label), replay(nil))
+			}
+			return
+		}
 		active = false
 		faulted := c.Deviations() > devBefore
 		_ = pointsBefore
@@ -335,11 +407,25 @@ func faultExec(run *ev.Run, prop string, u *uni.U, gen *wh.CPGen, logs []wh.LogC
 		}
 		s := int(st.Size)
 		cpF, mF := gen.Get(l, fk, s+1, "plain")
-		if out := e.Do(wh.Req{LogID: id, Old: st.Size, CP: cpF, Proof: fk.Proof(s, s+1), Meta: mF}); out.Class != wh.BadProof {
+		var out wh.Outcome
+		if !timed(func() { out = e.Do(wh.Req{LogID: id, Old: st.Size, CP: cpF, Proof: fk.Proof(s, s+1), Meta: mF}) }) {
+			markBlocked()
+			run.Report(fmt.Sprintf("blocked store=%s op=suffix-update", storeKind(store)), fmt.Sprintf("history %s faults %v: the fault-free Update after the faults did not complete within 30 s (store wedged)", h.Name, c.Trace()), replay(nil))
+			return
+		}
+		if out.Class != wh.BadProof {
 			run.Report("suffix-fork-not-refused got="+out.Class, fmt.Sprintf("history %s faults %v: after the faults a fork was answered %s (%v)", h.Name, c.Trace(), out.Class, out.Err), replay(nil))
 		}
+		if wedged("suffix fork probe") {
+			return
+		}
 		cpG, mG := gen.Get(l, st.Branch, s+1, "plain")
-		if out := e.Do(wh.Req{LogID: id, Old: st.Size, CP: cpG, Proof: st.Branch.Proof(s, s+1), Meta: mG}); out.Class != wh.OK {
+		if !timed(func() { out = e.Do(wh.Req{LogID: id, Old: st.Size, CP: cpG, Proof: st.Branch.Proof(s, s+1), Meta: mG}) }) {
+			markBlocked()
+			run.Report(fmt.Sprintf("blocked store=%s op=suffix-update", storeKind(store)), fmt.Sprintf("history %s faults %v: the fault-free growth after the faults did not complete within 30 s (store wedged)", h.Name, c.Trace()), replay(nil))
+			return
+		}
+		if out.Class != wh.OK {
 			run.Report("suffix-growth-refused got="+out.Class, fmt.Sprintf("history %s faults %v: after the faults honest growth %d->%d was answered %s (%v)", h.Name, c.Trace(), s, s+1, out.Class, out.Err), replay(nil))
 		}
 		if wedged("suffix") {
